@@ -84,4 +84,22 @@ PROPS = {
         "trusted_base": TB_COMMON,
         "assumptions": ASSUME_COMMON,
     },
+    "C01": result_prop("C01",
+        "random chains of 0..3 transformations (85 shapes, all 32 sites incl. eager ones) x {collect_vec, collect, collect_into(empty Vec/SplitVec/FixedVec)} x sources {Vec by value, exact-size iterator, unknown-size iterator} x random setters (NumThreads Auto/1..9, ChunkSize Auto/Exact/Min incl. len-1,len,len+1,2^20) at the source and mid-chain x inputs (len 0,1,2..70, some larger; distinct values 80%, duplicates 20%); half of the parallel single-phase cases run under the deterministic scheduler (families: reverse start order, last-spawned-first, one worker starved, workers ahead of the spawner, random); per case: outcome vs std oracle, outcome vs model prediction on the OBSERVED chunk assignment, Lean spec vs std oracle, observed assignment accepted (tiling + per-thread order); non-trivial = a runner ran and len>=2; distinct = distinct case text",
+        "C01_collect proves equality with the sequential chain for every accepted execution (any tiling, assignment, worker count, spawn order, chunk sizes); C01_every_schedule proves every schedule yields an accepted execution. The run validates the model: predicted = real outcome on the real assignment, and real assignments are accepted."),
+    "C02": result_prop("C02",
+        "as C01 with terminals find/first/any/all/find_with_index/first_with_index, predicates x%k==r with k in {1,2,3,5,7,11,50,1000,P} (0, 1, many matches; same and different chunks); 70% of parallel single-phase cases under the deterministic scheduler incl. the family where the last-spawned worker runs first / holds chunk 0; acceptance = every worker evaluated increasing positions and the evaluated set contains [0, least found position]",
+        "C02_find/first/any/all/find_idx prove the least match wins for every accepted find-execution; C02_every_schedule proves every schedule of the early-exit transition system yields one."),
+    "C03": result_prop("C03",
+        "as C01 with terminals reduce/fold (wrapping add, xor, min, max), sum, min, max, min_by, max_by, min_by_key, max_by_key (keys x%k, ties frequent); by-key outcomes compared on the extremal key, membership checked by the oracle",
+        "C03_reduce (assoc+comm operator) and C03_min_by_key/C03_max_by_key (selection operators, no commutativity) for every accepted execution."),
+    "C04": result_prop("C04",
+        "as C01 with terminals count and for_each (arguments of f compared as sorted multisets)",
+        "C04_count and C04_for_each for every accepted execution; C04_nested_loop for the hand-written chunk-1 loop of filtermap_fil_cnt."),
+    "C06": result_prop("C06",
+        "as C01 with collect_into into Vec/SplitVec/FixedVec holding 0,1,3,40,100 existing elements with spare capacity 0,5,200; half of the sources are iterators (exact and unknown length); map-only pipelines over unknown-length sources are the branch repaired by the fix: commit",
+        "C06_collect_into: pre ++ sequential result for all three targets, known/unknown length, sequential/parallel; C06_pinned_defect_witness keeps the pinned behaviour as a refuted alternative."),
+    "C07": result_prop("C07",
+        "as C01 with collect_x, 70% of the inputs with duplicates (values 0..11); outcomes compared as sorted multisets",
+        "C07_collect_x: permutation of the sequential result for every accepted execution; equality in sequential mode."),
 }
